@@ -628,6 +628,7 @@ def verify_lemma(lemma, registry, combo_filter=None, timeout_ms=10000, rounds=3)
             res["obligations"].append(rec)
     res["wall_s"] = round(time.time() - t0, 2)
     res["solver_time_s"] = round(res["solver_time_s"], 2)
+    res["inc_open"] = smt.INC_OPEN[0]
     return res
 
 
@@ -747,6 +748,7 @@ def verify_contract(contract, registry, combo_filter=None, timeout_ms=10000, rou
     """Generate and discharge every obligation of one function. Returns a result dict."""
     smt.SLOW[0] = 12 if timeout_ms <= 10000 else 60     # inconclusive queries a task may spend (quick / thorough)
     smt.HARD_HITS = 0
+    smt.INC_OPEN[0] = 0
     if isinstance(contract, Lemma):
         return verify_lemma(contract, registry, combo_filter, timeout_ms, rounds)
     t0 = time.time()
@@ -984,6 +986,7 @@ def verify_contract(contract, registry, combo_filter=None, timeout_ms=10000, rou
                 res["obligations"].append(rec)
     res["wall_s"] = round(time.time() - t0, 2)
     res["solver_time_s"] = round(res["solver_time_s"], 2)
+    res["inc_open"] = smt.INC_OPEN[0]
     return res
 
 
